@@ -1,9 +1,426 @@
 import RtcVerif.Model.C11
+import RtcVerif.Proofs.C11Lemmas
+import RtcVerif.Proofs.C11Roundtrip
+/-!
+# C11 — time-series files round-trip: what is written is what is read
+
+Property theorems about the record-level model `Model/C11.lean` (all series lengths, step sizes,
+forecast positions, ensemble sizes, NaN patterns, resize sequences — unbounded).
+Helper lemmas: `Proofs/C11Lemmas.lean`, `Proofs/C11Roundtrip.lean`.
+-/
 namespace RtcVerif.C11
 
-/-- the code before 658d814 moves a forecast date that lies on the grid (step 7 h, 28 h after the
-    start) off the grid -/
+/-! ## PI XML / binary round trip -/
+
+/-- **PI XML: what is written is what is read.**  For every well-formed in-memory object (`WF`:
+    any number of stamps ≥ 1, any positive step or strictly increasing nonequidistant stamps, any
+    forecast position, any ensemble size, any variables/units, any NaN/±inf pattern) whose finite
+    values differ from the missing-value sentinel the writer announces (−999, the PI convention):
+    `write` succeeds and `read` of the written records returns the very same object — time stamps,
+    step, forecast date and index, time zone, ensemble structure, units and values, with missing
+    values staying missing. -/
+theorem C11_pi_roundtrip (r32 : XVal → XVal) (s : Store) (hWF : WF false s)
+    (hmiss : ∀ sl ∈ s.slots, ∀ e ∈ sl, ∀ v ∈ e.vals, v ≠ newMiss) :
+    ∃ f, write r32 false s = some f ∧ read false f = some s := by
+  refine ⟨_, write_wf false r32 s hWF, ?_⟩
+  rw [read_written false r32 s hWF,
+    mapVals_id_of (back false r32) s.slots (fun sl hsl e he v hv =>
+      back_xml_id r32 v (hmiss sl hsl e he v hv))]
+
+/-- **PI binary: exact up to the float32 conversion `r32`** (any function; the format's own
+    rounding), everything else as for XML.  Nonequidistant data are excluded by `WF true`
+    (the binary file has no place for their stamps). -/
+theorem C11_pi_roundtrip_binary (r32 : XVal → XVal) (s : Store) (hWF : WF true s)
+    (hmiss : ∀ sl ∈ s.slots, ∀ e ∈ sl, ∀ v ∈ e.vals, r32 v ≠ newMiss) :
+    ∃ f, write r32 true s = some f ∧
+      read true f = some { s with slots := mapVals (List.map r32) s.slots } := by
+  refine ⟨_, write_wf true r32 s hWF, ?_⟩
+  rw [read_written true r32 s hWF]
+  have : mapVals (List.map (back true r32)) s.slots = mapVals (List.map r32) s.slots := by
+    unfold mapVals
+    apply List.map_congr_left
+    intro sl hsl
+    apply List.map_congr_left
+    intro e he
+    have : e.vals.map (back true r32) = e.vals.map r32 :=
+      List.map_congr_left (fun v hv => back_bin_id r32 v (hmiss sl hsl e he v hv))
+    rw [this]
+  rw [this]
+
+/-- **Binary: the second round trip is exact** for every idempotent rounding `r32`
+    (`r32 (r32 x) = r32 x`): what was read from a binary file is written and read back unchanged. -/
+theorem C11_binary (r32 : XVal → XVal) (hidem : ∀ x, r32 (r32 x) = r32 x) (s : Store)
+    (hWF : WF true s) (hmiss : ∀ sl ∈ s.slots, ∀ e ∈ sl, ∀ v ∈ e.vals, r32 v ≠ newMiss) :
+    ∃ f1 s1 f2, write r32 true s = some f1 ∧ read true f1 = some s1 ∧
+      write r32 true s1 = some f2 ∧ read true f2 = some s1 := by
+  obtain ⟨f1, hw1, hr1⟩ := C11_pi_roundtrip_binary r32 s hWF hmiss
+  have hWF1 := WF_mapVals true s hWF r32
+  have hmiss1 : ∀ sl ∈ (mapVals (List.map r32) s.slots), ∀ e ∈ sl, ∀ v ∈ e.vals, r32 v ≠ newMiss := by
+    intro sl' hsl' e' he' v hv
+    obtain ⟨sl, hsl, rfl⟩ := mem_mapVals _ _ _ hsl'
+    rw [List.mem_map] at he'
+    obtain ⟨e, he, rfl⟩ := he'
+    simp only [List.mem_map] at hv
+    obtain ⟨w, hw, rfl⟩ := hv
+    rw [hidem]
+    exact hmiss sl hsl e he w hw
+  obtain ⟨f2, hw2, hr2⟩ := C11_pi_roundtrip_binary r32 _ hWF1 hmiss1
+  refine ⟨f1, _, f2, hw1, hr1, hw2, ?_⟩
+  rw [hr2]
+  congr 1
+  have : mapVals (List.map r32) (mapVals (List.map r32) s.slots) = mapVals (List.map r32) s.slots := by
+    apply mapVals_id_of
+    intro sl' hsl' e' he' v hv
+    obtain ⟨sl, hsl, rfl⟩ := mem_mapVals _ _ _ hsl'
+    rw [List.mem_map] at he'
+    obtain ⟨e, he, rfl⟩ := he'
+    simp only [List.mem_map] at hv
+    obtain ⟨w, _, rfl⟩ := hv
+    exact hidem w
+  simp only [this]
+
+/-- the PI missing-value convention (hypothesis `hmiss` above is needed): a genuine value −999
+    written to a new file reads back as missing -/
+theorem C11_miss_collision_witness :
+    back false id (XVal.fin (-999)) = XVal.nan ∧ back false id (XVal.fin 5) = XVal.fin 5 ∧
+    back false id XVal.nan = XVal.nan := by
+  decide +kernel
+
+/-! ## series shorter than the global range -/
+
+/-- **Padding at the correct end.**  A series announced for the stamps `a..b` of a global grid of
+    `N` stamps (`0 ≤ a ≤ b < N`, any positive step) is read into an array of `N` values that is
+    NaN exactly outside `a..b` — `a` NaNs in front, `N-1-b` behind — and inside holds its own
+    event values (missing-value sentinel and absent events read as NaN). -/
+theorem C11_padding_correct_end (g : Geo) (d : Int) (hd : 0 < d) (hg : g.dt = some d) (N a b : Nat)
+    (hstop : g.stop = g.start + ((N : Int) - 1) * d) (hab : a ≤ b) (hbN : b < N) (r : Rec)
+    (hstep : r.hdr.step = some d) (hs : r.hdr.start = g.start + (a : Int) * d)
+    (he : r.hdr.stop = g.start + (b : Int) * d) (stream : Option (List XVal)) :
+    ∃ vals, readSeries g false r stream = some (vals, stream) ∧ vals.length = N ∧
+      ∀ i, i < N → vals.getD i XVal.nan =
+        if a ≤ i ∧ i ≤ b then missMap r.hdr.miss (r.evs.getD (i - a) XVal.nan) else XVal.nan := by
+  have hd0 : d ≠ 0 := Int.ne_of_gt hd
+  have hn : nValues g r.hdr = some (((b - a + 1 : Nat) : Int)) := by
+    unfold nValues
+    rw [hg, hstep]
+    simp only []
+    rw [if_neg hd0, hs, he,
+      show g.start + (b : Int) * d - (g.start + (a : Int) * d) = ((b : Int) - a) * d by ring,
+      roundDivP1_mul _ d hd0]
+    congr 1
+    omega
+  have hpf : padFront g r.hdr = (a : Int) := by
+    unfold padFront
+    rw [hg, hstep, hs]
+    by_cases ha : a = 0
+    · subst ha; simp
+    · have : g.start < g.start + (a : Int) * d := by
+        have : 0 < (a : Int) * d := by positivity
+        omega
+      rw [if_pos this]
+      simp only [Option.getD_some]
+      rw [show g.start + (a : Int) * d - g.start = (a : Int) * d by ring, roundDiv_mul _ d hd0]
+  have hpb : padBack g r.hdr = ((N - 1 - b : Nat) : Int) := by
+    unfold padBack
+    rw [hg, hstep, he, hstop]
+    by_cases hb : b = N - 1
+    · subst hb
+      have : ((N - 1 : Nat) : Int) = (N : Int) - 1 := by omega
+      rw [this]
+      simp
+    · have hlt : (b : Int) < (N : Int) - 1 := by omega
+      have : g.start + (b : Int) * d < g.start + ((N : Int) - 1) * d := by
+        have : 0 < ((N : Int) - 1 - b) * d := by
+          apply mul_pos <;> omega
+        nlinarith
+      rw [if_pos this]
+      simp only [Option.getD_some]
+      rw [show g.start + ((N : Int) - 1) * d - (g.start + (b : Int) * d)
+          = ((N : Int) - 1 - b) * d by ring, roundDiv_mul _ d hd0]
+      omega
+  refine ⟨nans a ++ (takePad (b - a + 1) r.evs).map (missMap r.hdr.miss) ++ nans (N - 1 - b), ?_, ?_, ?_⟩
+  · unfold readSeries
+    rw [hn, hpf, hpb]
+    simp only [Int.toNat_natCast]
+    rw [if_neg (by omega)]
+    simp
+  · simp only [List.length_append, nans_length, List.length_map, takePad_length]
+    omega
+  · intro i hi
+    rw [getD_padded]
+    simp only [List.length_map, takePad_length]
+    by_cases hin : a ≤ i ∧ i ≤ b
+    · rw [if_pos ⟨hin.1, by omega⟩, if_pos hin]
+      rw [List.getD_eq_getElem?_getD, List.getElem?_map]
+      have hlt : i - a < (takePad (b - a + 1) r.evs).length := by rw [takePad_length]; omega
+      rw [List.getElem?_eq_getElem hlt]
+      simp only [Option.map_some, Option.getD_some]
+      congr 1
+      have := getD_takePad (b - a + 1) (i - a) (by omega) r.evs
+      rw [List.getD_eq_getElem?_getD, List.getElem?_eq_getElem hlt] at this
+      simpa using this
+    · rw [if_neg hin, if_neg (by omega)]
+
+/-! ## `__floor_date_time` -/
+
+/-- **The forecast date is moved onto the step grid** `gstart + k·d`, by at most half a step, and a
+    forecast date that already lies on the grid is kept — for offsets of any number of days and
+    any positive step (the repaired code, commit 658d814). -/
+theorem C11_floor_date_time (g d f : Int) (hd : 0 < d) :
+    (∃ k : Int, floorDT g d f = g + k * d) ∧
+    (-d < 2 * (floorDT g d f - f) ∧ 2 * (floorDT g d f - f) ≤ d) ∧
+    (∀ j : Int, f = g + j * d → floorDT g d f = f) := by
+  have h2d : 0 < 2 * d := by omega
+  refine ⟨⟨(2 * (f - g) + d) / (2 * d), by unfold floorDT; ring⟩, ?_, ?_⟩
+  · unfold floorDT
+    have h1 := Int.ediv_mul_le (2 * (f - g) + d) (Int.ne_of_gt h2d)
+    have h2 := Int.lt_ediv_add_one_mul_self (2 * (f - g) + d) h2d
+    simp only []
+    generalize (2 * (f - g) + d) / (2 * d) = k at h1 h2 ⊢
+    have e1 : k * (2 * d) = 2 * (k * d) := by ring
+    have e2 : (k + 1) * (2 * d) = 2 * (k * d) + 2 * d := by ring
+    rw [e1] at h1
+    rw [e2] at h2
+    generalize k * d = m at h1 h2 ⊢
+    constructor <;> omega
+  · intro j hj
+    rw [hj]
+    exact floorDT_grid g d j hd
+
+/-- the code before 658d814 (`timedelta.seconds`, whole days dropped) moves a forecast date that
+    lies on the grid (step 7 h, 28 h after the start) off the grid; the repaired code keeps it -/
 theorem C11_floor_date_time_legacy_witness :
-    floorDTLegacy 0 25200 100800 = 111600 ∧ floorDT 0 25200 100800 = 100800 := by decide
+    floorDTLegacy 0 25200 100800 = 111600 ∧ ¬ (∃ k : Int, (111600 : Int) = 0 + k * 25200) ∧
+    floorDT 0 25200 100800 = 100800 := by
+  refine ⟨by decide, ?_, by decide⟩
+  rintro ⟨k, hk⟩
+  omega
+
+/-! ## CSV -/
+
+/-- **Six-decimal text precision**: printing with `%f` (correctly rounded, ties to even) and
+    parsing back moves a value by at most half a unit of the sixth decimal. -/
+theorem C11_csv_precision (x : Rat) : |round6 x - x| ≤ 1 / 2 * (1 / 1000000) := by
+  unfold round6
+  have h := pyRound_abs (x * 1000000)
+  rw [abs_le] at h ⊢
+  constructor
+  · rw [le_sub_iff_add_le, le_div_iff₀ (by norm_num)]
+    linarith [h.1]
+  · rw [sub_le_iff_le_add, div_le_iff₀ (by norm_num)]
+    linarith [h.2]
+
+/-- a value that already has six decimals is reproduced exactly (a second round trip is exact) -/
+theorem C11_csv_idempotent (x : Rat) : round6 (round6 x) = round6 x := by
+  unfold round6
+  have e : ((pyRound (x * 1000000) : Int) : Rat) / 1000000 * 1000000
+      = ((pyRound (x * 1000000) : Int) : Rat) := by field_simp
+  rw [e, pyRound_intCast]
+
+/-- ties do occur for binary64 values (odd multiples of 1/128) and go to the even neighbour, as
+    `%f` prints them: `1/128 = 0.0078125 ↦ 0.007812`, `3/128 = 0.0234375 ↦ 0.023438` -/
+theorem C11_csv_tie_witness :
+    round6 (1 / 128) = 7812 / 1000000 ∧ round6 (3 / 128) = 23438 / 1000000 := by
+  constructor <;> decide +kernel
+
+/-! ## resize -/
+
+/-- windows of a resize sequence: on the grid of the series, non-empty, and starting at most one
+    step after the current end (the complement is finding F26) -/
+def OkSeq (d : Int) : Int → Int → List (Int × Int) → Prop
+  | _, _, [] => True
+  | start, stop, w :: ws =>
+    (∃ a : Int, w.1 = start + a * d) ∧ (∃ b : Int, w.2 = stop + b * d) ∧ w.1 ≤ w.2 ∧
+      w.1 ≤ stop + d ∧ OkSeq d w.1 w.2 ws
+
+/-- every series has one value per stamp of `[start, stop]` -/
+def Aligned (d : Int) (s : Store) : Prop :=
+  s.dt = some d ∧ ∃ n : Nat, 1 ≤ n ∧ s.stop = s.start + ((n : Int) - 1) * d ∧
+    ∀ m v vals, s.get m v = some vals → vals.length = n
+
+theorem resize_step (d : Int) (hd : 0 < d) (s : Store) (hA : Aligned d s) (ns ne : Int)
+    (a b : Int) (ha : ns = s.start + a * d) (hb : ne = s.stop + b * d) (hle : ns ≤ ne)
+    (hF26 : ns ≤ s.stop + d) :
+    ∃ s', resize ns ne s = some s' ∧ s'.start = ns ∧ s'.stop = ne ∧ Aligned d s' ∧
+      ∀ m v vals, s.get m v = some vals →
+        ∃ vals', s'.get m v = some vals' ∧
+          ∀ t, valueAt ns d vals' t
+            = if ns ≤ t ∧ t ≤ ne then valueAt s.start d vals t else XVal.nan := by
+  obtain ⟨hdt, n, hn, hstop, hlen⟩ := hA
+  have hd0 : d ≠ 0 := Int.ne_of_gt hd
+  have ea : roundDiv (ns - s.start) d = a := by
+    rw [ha, show s.start + a * d - s.start = a * d by ring, roundDiv_mul a d hd0]
+  have eb : roundDiv (ne - s.stop) d = b := by
+    rw [hb, show s.stop + b * d - s.stop = b * d by ring, roundDiv_mul b d hd0]
+  -- bounds on a, b in steps
+  have han : a ≤ n := by
+    have : a * d ≤ (n : Int) * d := by
+      have : s.start + a * d ≤ s.start + ((n : Int) - 1) * d + d := by
+        rw [← ha, ← hstop]; exact hF26
+      nlinarith
+    exact le_of_mul_le_mul_right this hd
+  have hnab : 1 ≤ (n : Int) - a + b := by
+    have h : s.start + a * d ≤ s.start + ((n : Int) - 1) * d + b * d := by
+      rw [← ha, ← hstop, ← hb]; exact hle
+    have : 0 ≤ ((n : Int) - 1 - a + b) * d := by nlinarith
+    have := nonneg_of_mul_nonneg_left this hd
+    omega
+  let s' : Store := { s with start := ns, stop := ne,
+                             slots := mapVals (resize1 d s.start s.stop ns ne) s.slots }
+  have hres : resize ns ne s = some s' := by
+    unfold resize
+    split
+    · rename_i d' hd'
+      rw [hdt] at hd'
+      cases hd'
+      rfl
+    · rename_i h
+      rw [hdt] at h
+      cases h
+  have hget : ∀ m v, s'.get m v = (s.get m v).map (resize1 d s.start s.stop ns ne) :=
+    fun m v => get_mapVals _ s _ m v rfl s' rfl
+  have hr1 : ∀ vals : List XVal, resize1 d s.start s.stop ns ne vals
+      = shiftEnd b (shiftStart a vals) := by
+    intro vals
+    unfold resize1
+    rw [ea, eb]
+  refine ⟨s', hres, rfl, rfl, ?_, ?_⟩
+  · refine ⟨hdt, ((n : Int) - a + b).toNat, by omega, ?_, ?_⟩
+    · show ne = ns + ((((n : Int) - a + b).toNat : Int) - 1) * d
+      rw [Int.toNat_of_nonneg (by omega), hb, hstop, ha]
+      ring
+    · intro m v vals' hv
+      rw [hget m v] at hv
+      cases hsv : s.get m v with
+      | none => rw [hsv] at hv; cases hv
+      | some vals =>
+        rw [hsv] at hv
+        simp only [Option.map_some, Option.some.injEq] at hv
+        have hl := hlen m v vals hsv
+        rw [← hv, hr1]
+        have := resizeCore_length a b vals (by rw [hl]; exact han) (by rw [hl]; omega)
+        rw [hl] at this
+        omega
+  · intro m v vals hsv
+    refine ⟨resize1 d s.start s.stop ns ne vals, by rw [hget m v, hsv]; rfl, ?_⟩
+    intro t
+    have hl := hlen m v vals hsv
+    rw [hr1]
+    unfold valueAt
+    have hmod : (t - ns) % d = (t - s.start) % d := by
+      rw [ha, show t - (s.start + a * d) = (t - s.start) + d * (-a) by ring, Int.add_mul_emod_self_left]
+    rw [hmod]
+    by_cases hdiv : (t - s.start) % d = 0
+    · rw [if_pos hdiv, if_pos hdiv]
+      obtain ⟨q, hq⟩ : ∃ q, t - s.start = d * q := ⟨(t - s.start) / d, by
+        have := Int.emod_add_mul_ediv (t - s.start) d
+        rw [hdiv] at this
+        omega⟩
+      have e1 : (t - s.start) / d = q := by rw [hq, Int.mul_ediv_cancel_left _ hd0]
+      have e2 : (t - ns) / d = q - a := by
+        rw [ha, show t - (s.start + a * d) = d * (q - a) by rw [mul_sub, ← hq]; ring,
+          Int.mul_ediv_cancel_left _ hd0]
+      rw [e1, e2, getZ_resizeCore a b vals (by rw [hl]; exact han), hl]
+      have ht : t = s.start + q * d := by linarith [hq, mul_comm d q]
+      have c1 : (0 ≤ q - a) ↔ ns ≤ t := by
+        rw [ha, ht]
+        constructor
+        · intro h; nlinarith
+        · intro h
+          have : 0 ≤ (q - a) * d := by nlinarith
+          exact nonneg_of_mul_nonneg_left this hd
+      have c2 : (q - a < (n : Int) - a + b) ↔ t ≤ ne := by
+        rw [hb, hstop, ht]
+        constructor
+        · intro h
+          have : q ≤ (n : Int) - 1 + b := by omega
+          nlinarith
+        · intro h
+          have : 0 ≤ ((n : Int) - 1 + b - q) * d := by nlinarith
+          have := nonneg_of_mul_nonneg_left this hd
+          omega
+      by_cases hw : ns ≤ t ∧ t ≤ ne
+      · rw [if_pos hw, if_pos ⟨c1.2 hw.1, c2.2 hw.2⟩, sub_add_cancel]
+      · rw [if_neg hw, if_neg (fun h => hw ⟨c1.1 h.1, c2.1 h.2⟩)]
+    · rw [if_neg hdiv, if_neg hdiv]
+      simp
+
+/-- **Resizing keeps the values at the surviving time stamps** and gives NaN on new ones, for
+    *every sequence* of resizes of an equidistant series: after the windows `ws`, the value at
+    stamp `t` is the original value if `t` lies in every window, and NaN otherwise (in particular
+    on every stamp that was outside the original range, where `valueAt` of the original is NaN). -/
+theorem C11_resize_keeps_values (d : Int) (hd : 0 < d) (ws : List (Int × Int)) :
+    ∀ (s : Store), Aligned d s → OkSeq d s.start s.stop ws →
+    ∃ s', resizeSeq ws s = some s' ∧ Aligned d s' ∧
+      ∀ m v vals, s.get m v = some vals →
+        ∃ vals', s'.get m v = some vals' ∧
+          ∀ t, valueAt s'.start d vals' t
+            = if (∀ w ∈ ws, w.1 ≤ t ∧ t ≤ w.2) then valueAt s.start d vals t else XVal.nan := by
+  induction ws with
+  | nil =>
+    intro s hA _
+    exact ⟨s, rfl, hA, fun m v vals h => ⟨vals, h, fun t => by simp⟩⟩
+  | cons w ws ih =>
+    intro s hA hok
+    obtain ⟨⟨a, ha⟩, ⟨b, hb⟩, hle, hF, hrest⟩ := hok
+    obtain ⟨s1, hr, hs1, he1, hA1, hv1⟩ := resize_step d hd s hA w.1 w.2 a b ha hb hle hF
+    obtain ⟨s2, hr2, hA2, hv2⟩ := ih s1 hA1 (by rw [hs1, he1]; exact hrest)
+    refine ⟨s2, by simp only [resizeSeq, hr]; exact hr2, hA2, ?_⟩
+    intro m v vals hsv
+    obtain ⟨vals1, hg1, hval1⟩ := hv1 m v vals hsv
+    obtain ⟨vals2, hg2, hval2⟩ := hv2 m v vals1 hg1
+    refine ⟨vals2, hg2, fun t => ?_⟩
+    rw [hval2 t, hs1, hval1 t]
+    by_cases hall : ∀ w' ∈ ws, w'.1 ≤ t ∧ t ≤ w'.2
+    · by_cases hw : w.1 ≤ t ∧ t ≤ w.2
+      · rw [if_pos hall, if_pos hw, if_pos]
+        intro w' hw'
+        rcases List.mem_cons.1 hw' with rfl | h
+        · exact hw
+        · exact hall w' h
+      · rw [if_pos hall, if_neg hw, if_neg]
+        intro h
+        exact hw (h w (List.mem_cons_self))
+    · rw [if_neg hall, if_neg]
+      intro h
+      exact hall (fun w' hw' => h w' (List.mem_cons_of_mem _ hw'))
+
+/-- finding F26 (machine-checked witness): a window that starts more than one step after the old
+    end — old stamps 0..4 h, new window 7..11 h — gives 7 values instead of 5 -/
+theorem C11_resize_F26_witness :
+    (resize1 3600 0 14400 25200 39600
+      [XVal.fin 10, XVal.fin 11, XVal.fin 12, XVal.fin 13, XVal.fin 14]).length = 7 := by
+  decide +kernel
+
+/-! ## non-vacuity -/
+
+/-- a concrete well-formed ensemble object: 3 stamps with a 7 h step, forecast in the middle,
+    two members, a missing value -/
+def exStore : Store :=
+  { dt := some 25200, start := 0, stop := 50400, times := [0, 25200, 50400], forecast := 25200,
+    fcIndex := 1, tz := some 1, containsEns := true, ensSize := 2,
+    slots := [[⟨0, "m", [XVal.fin 1, XVal.nan, XVal.fin 3]⟩, ⟨2, "s", [XVal.fin 0, XVal.fin 0, XVal.pinf]⟩],
+              [⟨1, "m", [XVal.fin 7, XVal.fin 8, XVal.fin 9]⟩]] }
+
+example : WF false exStore := by
+  refine ⟨by decide, ⟨by decide, by decide, by decide⟩, by decide, by decide, by decide, by decide,
+    by decide, ?_, ?_, ?_⟩
+  · intro sl h
+    simp [exStore] at h
+    subst h
+    simp
+  · decide
+  · decide
+
+example : (write id false exStore).bind (read false) = some exStore := by decide +kernel
+
+
+example : OkSeq 3600 0 14400 [(3600, 18000), (-7200, 7200)] := by
+  refine ⟨⟨1, by norm_num⟩, ⟨1, by norm_num⟩, by norm_num, by norm_num,
+    ⟨-3, by norm_num⟩, ⟨-3, by norm_num⟩, by norm_num, by norm_num, trivial⟩
+
+example : valueAt 3600 3600 (resize1 3600 0 14400 3600 18000
+    [XVal.fin 10, XVal.fin 11, XVal.fin 12, XVal.fin 13, XVal.fin 14]) 7200 = XVal.fin 12 := by
+  decide +kernel
 
 end RtcVerif.C11
